@@ -136,7 +136,8 @@ class DFTKernel(KernelEvalBase):
     def Nctrl(self):
         if self.X1ctrl is None:
             raise ValueError("X1ctrl not set.")
-        return self.X1ctrl.shape[0]
+        # POL control points are stored as (2, Nctrl, N1)
+        return self.X1ctrl.shape[-2]
 
     def _reduce_npts(self, X):
         if self.mode == "POL":
